@@ -13,6 +13,8 @@ from it) but is a separate class because the kernels need arrays, `for` loops an
     np.abs / abs, np.rint, round            ->  Z.abs / Qabs, inject_Z (rint _), rint _   (rint = Model.rint, half-to-even)
     np.uint16 / np.uint64 / int of a float  ->  py_trunc (truncation towards zero, no wrap-around)
     b &= e, b |= e   (bools)                ->  b && e, b || e
+    for x in seq (seq : list (option Z))    ->  for_then (for_each seq body st) post;   x is None -> match;   l = [] ; l.append(e) -> l ++ [e]
+                                                (only with declared types: seq / l : list (option Z))
     raise ...                               ->  Fail
     return e / return e1, e2                ->  Ret (e.., m1, .., mk)  with the final contents of the array PARAMETERS that
                                                 the kernel assigns to (they are mutated in place)
@@ -39,11 +41,12 @@ sys.path.insert(0, os.path.dirname(os.path.abspath(__file__)))
 from py2gallina import Unsupported, _name  # noqa: E402
 
 
-COQ_KEYWORDS = {'end', 'match', 'with', 'fun', 'let', 'in', 'if', 'then', 'else', 'fix', 'cofix', 'forall', 'exists', 'return',
+COQ_KEYWORDS = {'loop_x', 'for_each', 'for_then', 'for_range', 'end', 'match', 'with', 'fun', 'let', 'in', 'if', 'then', 'else', 'fix', 'cofix', 'forall', 'exists', 'return',
                 'as', 'at', 'for', 'where', 'Type', 'Prop', 'Set', 'struct', 'using', 'st', 'r', 'loop_i', 'old', 'rint', 'repeat',
                 'length', 'zget', 'zset', 'qget'}
 INT_DTYPES = {'uint8', 'uint16', 'uint32', 'uint64', 'int8', 'int16', 'int32', 'int64'}
-DEFAULTS = {'Z': '0', 'Q': '(inject_Z 0)', 'bool': 'false', 'list Z': '(@nil Z)', 'list Q': '(@nil Q)'}
+DEFAULTS = {'Z': '0', 'Q': '(inject_Z 0)', 'bool': 'false', 'list Z': '(@nil Z)', 'list Q': '(@nil Q)',
+            'option Z': '(@None Z)', 'list (option Z)': '(@nil (option Z))'}
 
 
 class _Rename(ast.NodeTransformer):
@@ -113,6 +116,11 @@ class Kernel:
             if t not in DEFAULTS:
                 raise Unsupported('type %s' % t)
             self.types[x.arg] = t
+        for v, t in types.items():          # declared types of locals (needed for `v = []`)
+            if v not in self.types:
+                if t not in DEFAULTS:
+                    raise Unsupported('type %s' % t)
+                self.types[v] = t
         # array parameters that are assigned to: their final contents are part of the result
         self.mutated = []
         # locals in order of first assignment (source order)
@@ -143,6 +151,15 @@ class Kernel:
                     yield from Kernel._stmts_in_order(sub)
 
     # ---------------------------------------------------------------------------------------------- liveness
+    @staticmethod
+    def _is_append(s):
+        """(list name, argument) of a statement `lst.append(arg)`, else None"""
+        if isinstance(s, ast.Expr) and isinstance(s.value, ast.Call) and isinstance(s.value.func, ast.Attribute) \
+                and s.value.func.attr == 'append' and isinstance(s.value.func.value, ast.Name) \
+                and len(s.value.args) == 1 and not s.value.keywords:
+            return s.value.func.value.id, s.value.args[0]
+        return None
+
     @staticmethod
     def falls_through(stmts):
         for s in stmts:
@@ -175,6 +192,8 @@ class Kernel:
                 uses |= u1 | u2
                 f1, f2 = self.falls_through(s.body), self.falls_through(s.orelse)
                 defined = (d1 & d2) if (f1 and f2) else d1 if f1 else d2 if f2 else defined
+            elif isinstance(s, ast.Expr) and self._is_append(s) is not None:
+                uses |= _loads(s.value) - defined
             elif isinstance(s, ast.For):
                 uses |= _loads(s.iter) - defined
                 if not isinstance(s.target, ast.Name):
@@ -231,6 +250,8 @@ class Kernel:
             raise Unsupported('constant %r' % (e.value,))
         if isinstance(e, ast.Name):
             return _name(e.id), self._ty(e.id)
+        if isinstance(e, ast.List) and not e.elts:
+            return '[]', 'empty list'
         if isinstance(e, ast.UnaryOp):
             a, t = self.ex(e.operand)
             if isinstance(e.op, ast.USub) and t == 'Z':
@@ -281,6 +302,12 @@ class Kernel:
             if tc != 'bool' or ta != tb:
                 raise Unsupported('conditional expression types')
             return '(if %s then %s else %s)' % (c, a, b), ta
+        if isinstance(e, ast.Compare) and len(e.ops) == 1 and isinstance(e.ops[0], (ast.Is, ast.IsNot)) \
+                and isinstance(e.left, ast.Name) and isinstance(e.comparators[0], ast.Constant) and e.comparators[0].value is None:
+            if self._ty(e.left.id) != 'option Z':
+                raise Unsupported('is None on a non-optional')
+            yes, no = ('true', 'false') if isinstance(e.ops[0], ast.Is) else ('false', 'true')
+            return '(match %s with None => %s | Some _ => %s end)' % (_name(e.left.id), yes, no), 'bool'
         if isinstance(e, ast.Compare):
             parts = []
             left = e.left
@@ -412,6 +439,19 @@ class Kernel:
         if isinstance(s, ast.Expr):
             if isinstance(s.value, ast.Constant) and isinstance(s.value.value, str):
                 return self.block(rest, end, S)
+            app = self._is_append(s)
+            if app is not None:
+                lst, arg = app
+                if self._ty(lst) != 'list (option Z)':
+                    raise Unsupported('append to %s' % self._ty(lst))
+
+                def k_app(v, tv):
+                    if tv == 'Z':
+                        v = '(Some %s)' % v
+                    elif tv != 'option Z':
+                        raise Unsupported('append of a %s' % tv)
+                    return 'let %s := (%s ++ [%s]) in\n%s' % (_name(lst), _name(lst), v, self.block(rest, end, S))
+                return self.guarded(arg, k_app)
             raise Unsupported('expression statement')
         if isinstance(s, ast.Pass):
             return self.block(rest, end, S)
@@ -444,6 +484,11 @@ class Kernel:
             t = s.targets[0]
             if isinstance(t, ast.Name):
                 def k_assign(v, ty):
+                    if ty == 'empty list':
+                        ty = self.types.get(t.id, '')
+                        if not ty.startswith('list'):
+                            raise Unsupported('empty list assigned to a variable without a declared list type')
+                        v = DEFAULTS[ty]
                     self._declare(t.id, ty)
                     return 'let %s := %s in\n%s' % (_name(t.id), v, self.block(rest, end, S))
                 return self.guarded(s.value, k_assign)
@@ -506,6 +551,31 @@ class Kernel:
                 del saved
                 return '(if %s then\n%s\nelse\n%s)' % (c, a, b)
             return self.guarded(s.test, k_if)
+        if isinstance(s, ast.For) and isinstance(s.iter, ast.Name):
+            # for elem in seq  (seq : list (option Z), not assigned in the body)
+            if s.orelse or not isinstance(s.target, ast.Name) or self._ty(s.iter.id) != 'list (option Z)':
+                raise Unsupported('for over %s' % ast.unparse(s.iter))
+            for n in self._stmts_in_order(s.body):
+                tg = n.targets[0] if isinstance(n, ast.Assign) and len(n.targets) == 1 else getattr(n, 'target', None)
+                if (isinstance(tg, ast.Name) and tg.id == s.iter.id) or (self._is_append(n) or (None,))[0] == s.iter.id:
+                    raise Unsupported('sequence modified while iterating over it')
+            var = s.target.id
+            state = self._state_vars(s)
+            k = len(self.loops) + 1
+            sname, bname, pname = '%s_state%d' % (self.fname, k), '%s_body%d' % (self.fname, k), '%s_post%d' % (self.fname, k)
+            self.loops.append((sname, state))
+            tup = ', '.join(_name(v) for v in state)
+            unpack = ("let '(%s) := st in" % tup) if len(state) > 1 else ('let %s := st in' % tup)
+            self._declare(var, 'option Z')
+            self.depth += 1
+            body = self.block(s.body, 'Next (%s)' % tup, sname)
+            self.depth -= 1
+            self.defs.append('Definition %s (loop_x : option Z) (st : %s) : ctl %s_result %s :=\n%s\nlet %s := loop_x in\n%s.'
+                             % (bname, sname, self.fname, sname, unpack, _name(var), body))
+            post = self.block(rest, end, S)
+            self.defs.append('Definition %s (st : %s) : ctl %s_result %s :=\n%s\n%s.'
+                             % (pname, sname, self.fname, S, unpack, post))
+            return 'for_then (for_each %s %s (%s)) %s' % (_name(s.iter.id), bname, tup, pname)
         if isinstance(s, ast.For):
             if s.orelse or not isinstance(s.target, ast.Name):
                 raise Unsupported('for-else / tuple loop variable')
